@@ -107,6 +107,9 @@ def _opaque_table():
         from sktime.forecasting.exp_smoothing import ExponentialSmoothing
         from sktime.forecasting.theta import ThetaForecaster
         OPAQUE["expsmooth"] = ("o", lambda: ExponentialSmoothing())
+        # non-flat models: their forecasts depend on how far ahead of the fitted data a time point lies
+        OPAQUE["expsmooth_trend"] = ("o", lambda: ExponentialSmoothing(trend="add"))
+        OPAQUE["expsmooth_damped"] = ("o", lambda: ExponentialSmoothing(trend="add", damped_trend=True))
         OPAQUE["theta"] = ("o", lambda: ThetaForecaster(deseasonalize=False))
     except Exception:
         pass
@@ -175,6 +178,11 @@ def mk_fh(fh, shift):
     if form in (1, 3) and len(vals) > 1:
         vals = vals[1:] + vals[:1]            # rotated: not in increasing order
     if fh[0] == "r":
+        # equally spaced steps are sometimes handed over as a (stepped) pandas RangeIndex, bare or wrapped
+        sv = sorted(vals)
+        if len(sv) >= 2 and len({b - a for a, b in zip(sv, sv[1:])}) == 1 and (sum(sv) + shift) % 3 == 0:
+            ri = pd.RangeIndex(sv[0], sv[-1] + 1, sv[1] - sv[0])
+            return ForecastingHorizon(ri, is_relative=True) if form % 2 else ri
         if len(vals) == 1:
             return list(vals) if shift % 2 else int(vals[0])
         if form == 2:
